@@ -741,3 +741,54 @@ Proof.
     - rewrite IH by exact Hin. apply orb_true_r. }
   congruence.
 Qed.
+
+(* ---------- what the 16-bit length and count fields can represent ---------- *)
+Definition fits16b (p : eparam) : bool :=
+  (len (p_int p) <? 65536) && (len (p_str p) <? 65536)
+  && forallb (fun kv : N * bytes => len (snd kv) <? 65536) (p_int p)
+  && forallb (fun kv : bytes * bytes => (len (fst kv) <? 65536) && (len (snd kv) <? 65536)) (p_str p).
+
+Lemma len_filter_le {A} (f : A -> bool) l : len (filter f l) <= len l.
+Proof.
+  induction l as [|x r IH]; [cbn; lia|]. cbn [filter]. destruct (f x); rewrite ?len_cons; lia.
+Qed.
+
+(* success of Encode (below 4 GiB) implies it: nothing is ever truncated on a frame Encode
+   returns, so these are consequences, not extra hypotheses, of the round trip *)
+Lemma enc_ok_fits16 tl p b :
+  NoDup (keys (p_str p)) -> info_size (p_int p) (p_str p) < two32 ->
+  encode tl p = Ok b -> fits16b p = true.
+Proof.
+  intros Hnd Hnw H. rewrite (encode_spec tl p Hnd) in H.
+  set (im := p_int p) in *. set (sm := p_str p) in *.
+  assert (Hu : u32 (info_size im sm) = info_size im sm) by (apply N.mod_small; exact Hnw).
+  rewrite Hu in H. unfold L_max in H.
+  destruct (N.ltb_spec 65536 (info_size im sm)) as [Hgt|Hle]; [discriminate|]. clear H Hu.
+  destruct (info_size_props im sm) as (Hsz & _ & _). rewrite raw_split in Hsz.
+  pose proof (filter_count sm Hnd) as Hfc.
+  assert (Hkv : kv_size sm = 0 \/ 3 + kvs_size (filter not_gdpr sm) = kv_size sm).
+  { unfold kv_size. destruct (filter not_gdpr sm); [left|right]; reflexivity. }
+  assert (Hiv : int_size im = 0 /\ im = [] \/ 3 + ikvs_size im = int_size im).
+  { unfold int_size. destruct im; [left; split|right]; reflexivity. }
+  pose proof (kvs_size_count (filter not_gdpr sm)) as Hc1.
+  pose proof (ikvs_size_count im) as Hc2.
+  unfold fits16b. fold im sm. rewrite !andb_true_iff, !forallb_forall. repeat split.
+  - destruct Hiv as [[_ ->]|Hiv]; [reflexivity|]. lia.
+  - assert (Hls : len sm <= len (filter not_gdpr sm) + 1) by (destruct (slookup gdpr sm); lia).
+    destruct Hkv as [Hkv|Hkv].
+    + unfold kv_size in Hkv. destruct (filter not_gdpr sm) eqn:Ef; [|lia]. rewrite len_nil in Hls. lia.
+    + lia.
+  - intros kv Hin. pose proof (ikvs_size_in _ _ Hin) as Hb.
+    destruct Hiv as [[_ Hnil]|Hiv]; [rewrite Hnil in Hin; contradiction|].
+    unfold str_size in Hb. lia.
+  - intros kv Hin. destruct (not_gdpr kv) eqn:Eg.
+    + assert (Hin' : In kv (filter not_gdpr sm)) by (apply filter_In; split; assumption).
+      pose proof (kvs_size_in _ _ Hin') as Hb.
+      destruct Hkv as [Hkv|Hkv].
+      * unfold kv_size in Hkv. destruct (filter not_gdpr sm); [contradiction|lia].
+      * unfold str_size in Hb. lia.
+    + unfold not_gdpr in Eg. apply negb_false_iff, beqb_eq in Eg. destruct kv as [k v]. cbn [fst snd] in *.
+      subst k. apply (lookup_in_iff beqb beqb_spec _ _ _ Hnd) in Hin.
+      unfold acl_size in Hsz. fold (slookup gdpr sm) in Hin. rewrite Hin in Hsz.
+      unfold str_size in Hsz. change (len gdpr) with 22. lia.
+Qed.
